@@ -23,7 +23,7 @@ RULE = ('1-5 tasks (PickleCache and a custom two-file BaseCache format, dependen
         'generated result-shape grammar (nested dict/list/tuple/set, bytes, ints > 2^64, floats, text, blobs of 70-300 KB that span '
         'several pickle frames) and embeds the task name and dependency digests, so all stored values are distinct. Engine '
         '"rerun": first run with backend b1, second run with backend b2 (b1,b2 in {serial, fork, spawn}) in the same Lab, a new '
-        'Lab, or a FRESH INTERPRETER started with a different PYTHONHASHSEED; in some cases the Lab is given a relative storage path and '
+        'Lab (LocalStorage or FsspecStorage on the local filesystem), or a FRESH INTERPRETER started with a different PYTHONHASHSEED; in some cases the Lab is given a relative storage path and '
         'the caller changes its working directory between the runs. Oracle: after run 1 is_cached(t) for every task and '
         'the set of key directories == {cache_key(t)}; run 2 returns values equal to run 1\'s with zero run() records, and every '
         'requested instance\'s result_meta == run 1\'s (start, duration) AND == the (start, duration) read from the entry\'s metadata.json without '
@@ -55,7 +55,13 @@ def check_rerun(spec: dict) -> core.CaseResult:
             # the Lab is given a RELATIVE storage path; the caller changes its working directory between the two runs
             os.chdir(d)
             os.makedirs(os.path.join(d, 'elsewhere'), exist_ok=True)
-        lab1 = labtech.Lab(storage='store' if relative else store, runner_backend=spec['b1'], notebook=False, max_workers=2)
+        fsspec = spec.get('storage_kind') == 'fsspec_local' and not relative and spec['second'] != 'fresh_interpreter'
+        store_obj = store
+        if fsspec:
+            # the same entries through the other storage provider (FsspecStorage on the local filesystem)
+            from pbt import storages
+            store_obj = storages.make('fsspec_local', store)
+        lab1 = labtech.Lab(storage='store' if relative else store_obj, runner_backend=spec['b1'], notebook=False, max_workers=2)
         try:
             res1 = lab1.run_tasks(requested, disable_progress=True, disable_top=True)
         except Exception as ex:
@@ -135,7 +141,8 @@ def check_rerun(spec: dict) -> core.CaseResult:
                 os.chdir(os.path.join(d, 'elsewhere'))
             tasks2 = resultcase.build_tasks(spec) if mode == 'new_lab' else tasks
             req2 = [tasks2[i] for i in spec['requested']]
-            lab2 = labtech.Lab(storage=lab1._storage if relative else store, runner_backend=spec['b2'], notebook=False, max_workers=2) if mode == 'new_lab' else lab1
+            lab2 = labtech.Lab(storage=lab1._storage if relative else (storages.make('fsspec_local', store) if fsspec else store), runner_backend=spec['b2'],
+                               notebook=False, max_workers=2) if mode == 'new_lab' else lab1
             if mode == 'same_lab' and spec['b2'] != spec['b1']:
                 lab2 = labtech.Lab(storage=lab1._storage, runner_backend=spec['b2'], notebook=False, max_workers=2)
             try:
@@ -182,7 +189,7 @@ def check_rerun(spec: dict) -> core.CaseResult:
     seen = set()
     findings = [f for f in findings if not (f.signature in seen or seen.add(f.signature))]
     nt = len(closure) >= 2 and (spec['second'] == 'fresh_interpreter' or spec['b1'] != spec['b2'] or spec['b2'] != 'serial')
-    labels = (f'b1={spec["b1"]}', f'b2={spec["b2"]}', f'second={spec["second"]}', f'rewrite={bool(spec.get("rewrite"))}',
+    labels = (f'b1={spec["b1"]}', f'b2={spec["b2"]}', f'second={spec["second"]}', f'rewrite={bool(spec.get("rewrite"))}', f'storage={spec.get("storage_kind", "local")}',
               'multi_frame_result' if 'bytes\', 70000' in str(spec) or '150000' in str(spec) or '300000' in str(spec) else 'small_results')
     return core.CaseResult(findings=findings, nontrivial=nt, labels=labels, summary=summary)
 
@@ -322,7 +329,7 @@ def rerun_spec(draw, backends, fresh_rate: int):
     second = 'fresh_interpreter' if draw(st.integers(0, 99)) < fresh_rate else draw(st.sampled_from(['same_lab', 'new_lab']))
     return {'nodes': nodes, 'requested': requested, 'b1': draw(st.sampled_from(backends)), 'b2': draw(st.sampled_from(backends)),
             'second': second, 'hashseed2': draw(st.integers(1, 4000)), 'relative_storage': draw(st.integers(0, 4)) == 0,
-            'rewrite': draw(st.integers(0, 2)) == 0}
+            'rewrite': draw(st.integers(0, 2)) == 0, 'storage_kind': draw(st.sampled_from(['local', 'local', 'fsspec_local']))}
 
 
 def plan(tier: str) -> list[dict]:
